@@ -146,7 +146,7 @@ def bits_family():
                     pr = Q("C09", "C15", "C17") if quick else TH("C09", "C15", "C17")
                     H("c09_%s_u_%d%d_%s" % (OPS[op], na, nb, FORMS5[f]), "h_bits::bitop_u::<%d,%d,%d>(%d,%d)" % (na, nb, m, op, f), pr,
                       unwind=m + 4, bound="UBig %s UBig, lengths exactly (%d,%d)" % (OPS[op], na, nb))
-    # IBig & | ^ (sign fix-ups)
+    # IBig & | ^ (sign fix-ups): chains of operations on intermediate results -> inline-only regime for <= 2 words
     for na in range(0, 4):
         for nb in range(0, 4):
             m = max(na, nb) + 1
@@ -154,20 +154,38 @@ def bits_family():
                 for sb in "pn":
                     if (na == 0 and sa == "n") or (nb == 0 and sb == "n"):
                         continue
+                    anyneg = sa == "n" or sb == "n"
                     for op in range(3):
                         for f in range(5):
-                            quick = f == (na + nb * 2 + op + (sa == "n") + 2 * (sb == "n")) % 5 and (na, nb) in ((1, 1), (2, 2), (2, 1), (1, 2), (3, 2), (3, 3), (1, 3), (0, 2), (3, 0))
-                            pr = Q("C09", "C15") if quick else TH("C09", "C15")
-                            H("c09_%s_i_%d%d_%s%s_%s" % (OPS[op], na, nb, sa, sb, FORMS5[f]),
-                              "h_bits::bitop_i::<%d,%d,%d>(%s,%s,%d,%d)" % (na, nb, m, SIGN[sa], SIGN[sb], op, f), pr,
-                              unwind=m + 4, bound="IBig %s IBig, lengths exactly (%d,%d), two's complement oracle" % (OPS[op], na, nb))
+                            rot = f == (na + nb * 2 + op + (sa == "n") + 2 * (sb == "n")) % 5
+                            name = "c09_%s_i_%d%d_%s%s_%s" % (OPS[op], na, nb, sa, sb, FORMS5[f])
+                            b = "IBig %s IBig, lengths exactly (%d,%d), signs %s%s, two's complement oracle" % (OPS[op], na, nb, sa, sb)
+                            if not anyneg:
+                                quick = rot and (na, nb) in ((1, 1), (2, 2), (2, 1), (3, 2), (3, 3), (0, 2))
+                                H(name, "h_bits::bitop_i::<%d,%d,%d>(%s,%s,%d,%d,false)" % (na, nb, m, SIGN[sa], SIGN[sb], op, f),
+                                  Q("C09", "C15") if quick else TH("C09", "C15"), unwind=m + 4, bound=b)
+                            elif na <= 2 and nb <= 2:
+                                quick = rot
+                                H(name, "h_bits::bitop_i::<%d,%d,%d>(%s,%s,%d,%d,true)" % (na, nb, m, SIGN[sa], SIGN[sb], op, f),
+                                  Q("C09", "C15") if quick else TH("C09", "C15"), "i64", unwind=m + 4, bound=b + ", inline-only regime (|x|,|y| < 2^(2W-1))")
+                                if rot and (na, nb) in ((1, 1), (2, 1), (2, 2)):
+                                    H(name, "h_bits::bitop_i::<%d,%d,%d>(%s,%s,%d,%d,true)" % (na, nb, m, SIGN[sa], SIGN[sb], op, f),
+                                      TH("C09", "C19"), "i32", unwind=m + 4, bound=b + ", inline-only regime, 32-bit words")
+                            else:
+                                if rot:
+                                    H(name, "h_bits::bitop_i::<%d,%d,%d>(%s,%s,%d,%d,false)" % (na, nb, m, SIGN[sa], SIGN[sb], op, f),
+                                      TH("C09"), unwind=m + 4, bound=b + " (3-word operands: may be undecided)")
     for n in range(0, 4):
         for s in "pn":
             if n == 0 and s == "n":
                 continue
             for r in (0, 1):
-                H("c09_not_i_%d_%s_%s" % (n, s, "rv"[r]), "h_bits::not_i::<%d,%d>(%s,%s)" % (n, n + 1, SIGN[s], "true" if r == 0 else "false"),
-                  Q("C09") if r == (n % 2) else TH("C09"), unwind=n + 5, bound="!IBig, length exactly %d" % n)
+                if n <= 2:
+                    H("c09_not_i_%d_%s_%s" % (n, s, "rv"[r]), "h_bits::not_i::<%d,%d>(%s,%s,true)" % (n, n + 1, SIGN[s], "true" if r == 0 else "false"),
+                      Q("C09") if r == (n % 2) else TH("C09"), "i64", unwind=n + 5, bound="!IBig, length exactly %d, inline-only regime" % n)
+                else:
+                    H("c09_not_i_%d_%s_%s" % (n, s, "rv"[r]), "h_bits::not_i::<%d,%d>(%s,%s,false)" % (n, n + 1, SIGN[s], "true" if r == 0 else "false"),
+                      TH("C09"), unwind=n + 5, bound="!IBig, length exactly %d" % n)
     # shifts: amount concrete per harness
     for cfg, W in (("w64", 64), ("w32", 32)):
         KS = [0, 1, W - 1, W, W + 1, 2 * W - 1, 2 * W, 2 * W + 1, 3 * W, 3 * W + 5]
@@ -187,8 +205,14 @@ def bits_family():
                     for s in "pn":
                         if n == 0:
                             continue
-                        H("c09_shr_i_%d_%s_k%d_%s" % (n, s, k, FORMS3[f]), "h_bits::shr_i::<%d,%d>(%s,%d,%d)" % (n, n + 1, SIGN[s], k, f), pr, cfg,
-                          unwind=n + 6, bound="IBig(len %d, %s) >> %d (floor)" % (n, s, k))
+                        if s == "n" and n <= 2:
+                            icfg = "i64" if cfg == "w64" else "i32"
+                            H("c09_shr_i_%d_%s_k%d_%s" % (n, s, k, FORMS3[f]), "h_bits::shr_i::<%d,%d>(%s,%d,%d)" % (n, n + 1, SIGN[s], k, f), pr, icfg,
+                              unwind=n + 6, bound="IBig(len %d, negative) >> %d (floor), inline-only regime" % (n, k))
+                        else:
+                            H("c09_shr_i_%d_%s_k%d_%s" % (n, s, k, FORMS3[f]), "h_bits::shr_i::<%d,%d>(%s,%d,%d)" % (n, n + 1, SIGN[s], k, f),
+                              pr if s == "p" else (TH("C09") if cfg == "w64" else TH("C19")), cfg,
+                              unwind=n + 6, bound="IBig(len %d, %s) >> %d (floor)" % (n, s, k))
                         if s == "n":
                             H("c09_shl_i_%d_%s_k%d_%s" % (n, s, k, FORMS3[f]), "h_bits::shl_i::<%d,%d>(%s,%d,%d)" % (n, m, SIGN[s], k, f),
                               pr if cfg == "w32" else TH("C09", "C15"), cfg, unwind=m + 4, bound="IBig(len %d, %s) << %d" % (n, s, k))
@@ -218,7 +242,7 @@ def bits_family():
             H("c09_split_bits_%d_b%d" % (n, b), "h_bits::split_u::<%d,%d>(%d,0)" % (n, n + 1, b), Q("C09", "C17") if q else TH("C09", "C17"), unwind=n + 6, bound="UBig(len %d).split_bits(%d)" % (n, b))
             H("c09_clear_high_%d_b%d" % (n, b), "h_bits::split_u::<%d,%d>(%d,1)" % (n, n + 1, b), Q("C09", "C17") if not q else TH("C09", "C17"), unwind=n + 6, bound="UBig(len %d).clear_high_bits(%d)" % (n, b))
     for n in range(0, 5):
-        H("c09_next_pow2_%d" % n, "h_bits::next_pow2_u::<%d,%d>()" % (n, n + 1), Q("C09", "C17") if n <= 3 else TH("C09", "C17"), unwind=n + 6, bound="UBig(len %d).next_power_of_two()" % n)
+        H("c09_next_pow2_%d" % n, "h_bits::next_pow2_u::<%d,%d>()" % (n, n + 1), Q("C09", "C17") if n <= 2 else TH("C09", "C17"), unwind=n + 6, bound="UBig(len %d).next_power_of_two()" % n)
     for b in sorted(set(list(range(0, 4)) + [W - 1, W, W + 1, 2 * W - 1, 2 * W, 2 * W + 1, 3 * W - 1, 3 * W, 3 * W + 1, 4 * W, 4 * W + 1])):
         H("c09_ones_%d" % b, "h_bits::ones_u::<%d>(%d)" % (b // W + 1, b), Q("C09", "C05", "C17"), unwind=b // W + 6, bound="UBig::ones(%d) value and canonical layout" % b)
     for b in (0, 1, 31, 32, 33, 63, 64, 65, 96, 97):
@@ -443,6 +467,152 @@ def div_family():
                   Q("C02") if quick else TH("C02"), unwind=na + len(d) + 8, bound="ConstDivisor(%s) vs plain division, structured dividends of %d words" % (dn, na))
 
 
+def conv_family():
+    PN = ["u8", "u16", "u32", "u64", "u128", "usize", "i8", "i16", "i32", "i64", "i128", "isize", "bool"]
+    for cfg in ("w64", "w32"):
+        for w, nm in enumerate(PN):
+            H("c06_from_%s" % nm, "h_conv::from_prim(%d)" % w, Q("C06") if cfg == "w64" else mix(quick=("C19",) if w in (4, 10) else (), thorough=("C06", "C19")), cfg, unwind=8,
+              bound="From/TryFrom<%s> for UBig/IBig and back, every value" % nm)
+        for n in range(0, 4 if cfg == "w64" else 6):
+            for s in "pn":
+                if n == 0 and s == "n":
+                    continue
+                for w in range(12):
+                    quick = cfg == "w64" and n <= 3 and (w + n) % 3 == 0
+                    H("c06_to_%s_%d_%s" % (PN[w], n, s), "h_conv::to_prim::<%d>(%s,%d)" % (n, SIGN[s], w),
+                      Q("C06") if quick else (TH("C06") if cfg == "w64" else TH("C06", "C19")), cfg, unwind=n + 6,
+                      bound="TryFrom<UBig/IBig> for %s, integer length exactly %d words (%s)" % (PN[w], n, s))
+        for n in range(0, 6):
+            for s in "pn":
+                if n == 0 and s == "n":
+                    continue
+                for f64_ in (False, True):
+                    quick = cfg == "w64" and n <= 4
+                    nm = "f64" if f64_ else "f32"
+                    H("c06_to_%s_%d_%s" % (nm, n, s), "h_conv::to_float::<%d>(%s,%s)" % (n, SIGN[s], "true" if f64_ else "false"),
+                      Q("C06") if quick else TH("C06", "C19"), cfg, unwind=n + 6,
+                      bound="to_%s of an integer of exactly %d words (%s): value, Exact flag, error sign vs integer reference" % (nm, n, s))
+                    H("c06_try_%s_%d_%s" % (nm, n, s), "h_conv::int_to_float_exact::<%d>(%s,%s)" % (n, SIGN[s], "true" if f64_ else "false"),
+                      Q("C06") if (quick and n <= 3) else TH("C06", "C19"), cfg, unwind=n + 6,
+                      bound="TryFrom<UBig/IBig> for %s, integer of exactly %d words (%s)" % (nm, n, s))
+    # TryFrom<f32/f64> for UBig/IBig (decode, then <<= / >>= by a data-dependent amount) is NOT harnessed:
+    # every formulation tried (exponent window, inline-only regime) ran out of memory in CBMC because the
+    # shift amount - and with it the size of the buffer built by <<= - stays symbolic (see DESIGN 3/C06).
+
+
+def text_family():
+    for cfg, WBY in (("w64", 8), ("w32", 4)):
+        for L in (0, 1, 7, 8, 9, 15, 16, 17, 18, 24, 25) if cfg == "w64" else (0, 3, 4, 5, 7, 8, 9, 12, 13):
+            for be in (False, True):
+                mu = max(1, (L + WBY - 1) // WBY)
+                q = cfg == "w64" and L in (0, 7, 9, 16, 17, 25)
+                pr = Q("C07", "C17") if q else (TH("C07") if cfg == "w64" else mix(quick=("C19",) if L in (5, 9) else (), thorough=("C07", "C19")))
+                H("c07_from_%s_bytes_u_%d" % ("be" if be else "le", L), "h_text::from_bytes_u::<%d,%d>(%s)" % (L, mu, "true" if be else "false"), pr, cfg,
+                  unwind=L + 8, bound="UBig::from_%s_bytes of %d arbitrary bytes" % ("be" if be else "le", L))
+                H("c07_from_%s_bytes_i_%d" % ("be" if be else "le", L), "h_text::from_bytes_i::<%d,%d>(%s)" % (L, L // WBY + 2, "true" if be else "false"), pr, cfg,
+                  unwind=L + 3 * WBY + 4, bound="IBig::from_%s_bytes of %d arbitrary bytes (two's complement)" % ("be" if be else "le", L))
+        for n in range(0, 5):
+            for be in (False, True):
+                q = cfg == "w64" and n <= 3
+                pr = Q("C07", "C17") if q else (TH("C07") if cfg == "w64" else mix(quick=("C19",) if n == 3 else (), thorough=("C07", "C19")))
+                H("c07_to_%s_bytes_u_%d" % ("be" if be else "le", n), "h_text::to_bytes_u::<%d>(%s)" % (n, "true" if be else "false"), pr, cfg,
+                  unwind=(n + 1) * WBY + 4, bound="UBig::to_%s_bytes, length exactly %d words: bytes, minimal length, round trip" % ("be" if be else "le", n))
+                for s in "pn":
+                    if n == 0 and s == "n":
+                        continue
+                    H("c07_to_%s_bytes_i_%d_%s" % ("be" if be else "le", n, s), "h_text::to_bytes_i::<%d>(%s,%s)" % (n, SIGN[s], "true" if be else "false"), pr, cfg,
+                      unwind=(n + 2) * WBY + 4, bound="IBig::to_%s_bytes (%s), length exactly %d words: two's complement meaning and round trip" % ("be" if be else "le", s, n))
+    for radix in (2, 3, 7, 8, 10, 16, 32, 36):
+        for L in (0, 1, 2, 3, 4, 5):
+            for signed in (False, True):
+                q = radix in (2, 10, 16, 36) and L in (1, 3, 4) and (signed or L != 4)
+                H("c07_parse_r%d_L%d_%s" % (radix, L, "i" if signed else "u"), "h_text::parse_radix::<%d>(%d,%s,false)" % (L, radix, "true" if signed else "false"),
+                  Q("C07", "C16") if q else TH("C07", "C16"), unwind=L + 6, bound="from_str_radix(radix %d) on every ASCII string of length %d without '_'" % (radix, L))
+        for L in (2, 3):
+            H("c07_parse_us_r%d_L%d" % (radix, L), "h_text::parse_radix::<%d>(%d,true,true)" % (L, radix), Q("C07", "C16") if (radix in (10, 16) and L == 3) else TH("C07", "C16"), unwind=L + 8,
+              bound="from_str_radix(radix %d) on every ASCII string of length %d, underscores allowed" % (radix, L))
+    for L in (0, 1, 2, 3, 4, 5):
+        for signed in (False, True):
+            H("c07_parse_prefix_L%d_%s" % (L, "i" if signed else "u"), "h_text::parse_prefix::<%d>(%s)" % (L, "true" if signed else "false"),
+              Q("C07", "C16") if L in (3, 4) else TH("C07", "C16"), unwind=L + 6, bound="from_str_with_radix_prefix on every ASCII string of length %d" % L)
+    for (k, L) in ((4, 16), (4, 17), (4, 18), (1, 65), (3, 21), (3, 22), (3, 23), (5, 13), (5, 14)):
+        m = (L * k + 63) // 64
+        H("c07_parse_pow2_k%d_L%d" % (k, L), "h_text::parse_pow2_long::<%d,%d>(%d)" % (L, m, k), Q("C07") if (k, L) in ((4, 17), (3, 22), (5, 13)) else TH("C07"), unwind=L + 6,
+          bound="from_str_radix(2^%d) on every %d-digit string (crosses the word boundary)" % (k, L))
+    for radix in (2, 3, 8, 10, 16, 36, 7, 32):
+        for bits, nm in ((16, "b16"), (64, "b64"), (128, "b128")):
+            for neg in (False, True):
+                up = radix > 10 and neg
+                q = radix in (10, 16, 3) and bits == 16
+                H("c07_print_r%d_%s_%s" % (radix, nm, "n" if neg else "p"), "h_text::print_radix(%d,%d,%s,%s)" % (radix, bits, "true" if neg else "false", "true" if up else "false"),
+                  Q("C07") if q else TH("C07"), unwind=140, bound="Display of in_radix(%d) for every value below 2^%d (%s): digits = positional representation" % (radix, bits, "negative" if neg else "non-negative"))
+
+
+def nt_family():
+    for w, nm in enumerate(("u8", "u16", "u32")):
+        H("c12_gcd_prim_%s" % nm, "h_nt::gcd_prim(%d)" % w, Q("C12") if w < 2 else TH("C12"), unwind=(20, 36, 70)[w],
+          bound="dashu-base gcd/gcd_ext for every pair of %s (common divisor + Bezout identity)" % nm)
+    H("c12_gcd_prim_zero", "h_nt::gcd_prim_zero()", Q("C12", "C16"), kind="panic", unwind=4, bound="gcd(0,0) panics")
+    for w, nm in enumerate(("sqrt_u8", "sqrt_u16", "sqrt_u32", "sqrt_u64", "cbrt_u8", "cbrt_u16", "cbrt_u32", "cbrt_u64")):
+        H("c12_root_prim_%s" % nm, "h_nt::root_prim(%d)" % w, Q("C12") if nm in ("sqrt_u8", "sqrt_u16", "sqrt_u32", "cbrt_u8", "cbrt_u16") else TH("C12"), unwind=12,
+          bound="dashu-base %s_rem for every value: s^k <= n < (s+1)^k and the remainder" % nm)
+    H("c12_log2_u8", "h_nt::log2_u16(1,255,true)", Q("C12", "C19"), unwind=4, bound="no_std log2_bounds for every u8, exact against floor/ceil(2^40 log2 n)")
+    for i in range(16):
+        lo, hi = max(1, i * 4096), i * 4096 + 4095
+        H("c12_log2_u16_%d" % i, "h_nt::log2_u16(%d,%d,false)" % (lo, hi), Q("C12", "C19") if i in (0, 1, 4, 15) else TH("C12", "C19"), unwind=4,
+          bound="no_std log2_bounds for every u16 in [%d,%d], exact against floor/ceil(2^40 log2 n)" % (lo, hi))
+    H("c12_log2_zero", "h_nt::log2_zero()", Q("C12"), unwind=4)
+    H("c12_log2_u32", "h_nt::log2_wide(false)", Q("C12", "C19"), unwind=4, bound="no_std log2_bounds for every u32 > 65535: exact where the bits below the 16-bit prefix are zero, necessary conditions elsewhere")
+    H("c12_log2_u64", "h_nt::log2_wide(true)", TH("C12", "C19"), unwind=4, bound="no_std log2_bounds for every u64 > 65535 (same criterion)")
+    H("c12_next_updown", "h_nt::next_updown()", Q("C12"), unwind=4, bound="next_up/next_down for every finite f32")
+    for n in (3, 4, 5, 7, 64, 100):
+        H("c12_nth_root_tiny_%d" % n, "h_nt::nth_root_tiny(%d)" % n, Q("C12") if n in (3, 5, 64) else TH("C12"), "i64", unwind=6,
+          bound="UBig::nth_root(%d) for every value below 2^%d (incl. 0)" % (n, min(n, 64)))
+    for w in range(4):
+        H("c12_sqrt_small_%d" % w, "h_nt::sqrt_small(16,%d)" % w, Q("C12") if w in (0, 1) else TH("C12"), "i64", unwind=12, bound="UBig sqrt/sqrt_rem/nth_root(1,2) for every value below 2^16")
+        H("c12_sqrt_word_%d" % w, "h_nt::sqrt_small(63,%d)" % w, TH("C12"), "i64", unwind=12, bound="UBig sqrt/sqrt_rem for every value below 2^63")
+    for s in "pn":
+        H("c12_cbrt_small_%s" % s, "h_nt::cbrt_small(%s,10)" % SIGN[s], Q("C12", "C16"), "i64", unwind=24, bound="IBig::cbrt / nth_root(3), |x| < 2^10, sign %s" % s)
+    for w in range(9):
+        H("c12_root_panics_%d" % w, "h_nt::root_panics(%d)" % w, Q("C12", "C16"), "i64", kind="panic", unwind=8, bound="documented panics of roots / ilog / gcd(0,0)")
+    for n in (1, 2, 3):
+        for k in (1, 3, 4, 16):
+            H("c12_ilog_pow2_%d_k%d" % (n, k), "h_nt::ilog_pow2::<%d>(%d)" % (n, k), Q("C12") if (n + k) % 2 == 0 else TH("C12"), unwind=n + 4, bound="UBig::ilog(2^%d) for every value of exactly %d words" % (k, n))
+    H("c12_gcd_small_8", "h_nt::gcd_small(8)", Q("C12"), "i64", unwind=300, bound="UBig gcd/gcd_ext, operands below 2^8 (Bezout identity)")
+    H("c12_gcd_small_16", "h_nt::gcd_small(16)", TH("C12"), "i64", unwind=300, bound="UBig gcd/gcd_ext, operands below 2^16")
+    for f in (2, 8, 3, 10):
+        H("c12_remove_%d" % f, "h_nt::remove_small(12,%d)" % f, Q("C12") if f in (2, 8) else TH("C12"), "i64", unwind=24, bound="UBig::remove(%d) for every non-zero value below 2^12" % f)
+
+
+def mod_family():
+    W = 64
+    M = (1 << W) - 1
+    MODS = {"m10007": [10007], "m2p40": [1 << 40], "mtop5": [(1 << (W - 1)) + 5], "mbig59": [M - 58], "dw13": [13, 1], "dwtop": [5, 1 << (W - 1)],
+            "lg705": [7, 0, 5], "lgtop": [M, 0, 1 << (W - 1)]}
+    OPN = ["add", "sub", "mul", "neg", "dbl", "sqr", "pow", "assign", "mulref"]
+    for mn, m in MODS.items():
+        small = len(m) == 1 and m[0] < (1 << 20)
+        bits = 6 if small else 12
+        for op, on in enumerate(OPN):
+            if op == 6:
+                for e in (0, 1, 2, 3, 5) if not small else (0, 1, 2):
+                    H("c13_%s_pow%d" % (mn, e), "h_mod::ring_op::<%d>([%s],6,%d,%d)" % (len(m), ",".join(map(str, m)), e, 6 if small else 12),
+                      Q("C13") if (e in (0, 3) and mn in ("m10007", "mtop5", "dw13", "lg705")) else TH("C13"), unwind=16,
+                      bound="Reduced::pow(%d) in the ring mod %s, base = +-p (p < 2^%d)" % (e, mn, 6 if small else 12))
+            else:
+                q = mn in ("m10007", "mtop5", "dw13", "lg705", "lgtop") and on in ("add", "sub", "mul", "neg", "sqr")
+                H("c13_%s_%s" % (mn, on), "h_mod::ring_op::<%d>([%s],%d,0,%d)" % (len(m), ",".join(map(str, m)), op, bits),
+                  Q("C13", "C15") if q else TH("C13", "C15"), unwind=16, bound="Reduced %s in the ring mod %s, elements +-p (p < 2^%d), residue vs integer result mod m" % (on, mn, bits))
+    for m in (1, 2, 9, 10, 10007, 65536):
+        for neg in (False, True):
+            H("c13_reduce_%d_%s" % (m, "n" if neg else "p"), "h_mod::reduce_small(%d,%s)" % (m, "true" if neg else "false"), Q("C13") if m in (1, 9, 10007) else TH("C13"), unwind=8,
+              bound="ConstDivisor(%d).reduce of every |a| < 2^32 (%s)" % (m, "negative" if neg else "non-negative"))
+    for m in (1, 2, 9, 10, 12, 97):
+        H("c13_inv_%d" % m, "h_mod::ring_inv(%d)" % m, Q("C13") if m in (1, 9, 10) else TH("C13"), unwind=80, bound="Reduced::inv in the ring mod %d, every residue" % m)
+    for op in range(4):
+        H("c13_mix_%d" % op, "h_mod::ring_mix(%d)" % op, Q("C13", "C16"), kind="panic", unwind=8, bound="operands from two ConstDivisor instances panic")
+
+
 def build():
     global T, _names
     T = []
@@ -453,4 +623,8 @@ def build():
     cmp_family()
     mul_family()
     div_family()
+    conv_family()
+    text_family()
+    nt_family()
+    mod_family()
     return T
